@@ -32,8 +32,9 @@ class PTr(Tr):
     * `bools`: names of Python bool parameters (Lean `Bool`).
     """
 
-    def __init__(self, env, ints=(), funcs=None, intfuncs=None, sqrt=None, mixed=None, unary=None, bools=()):
+    def __init__(self, env, ints=(), funcs=None, intfuncs=None, sqrt=None, mixed=None, unary=None, bools=(), rpow=None):
         super().__init__(env, 'num', funcs)
+        self.rpow = rpow      # name of a parameter `K → K → K` standing for real exponentiation `base ** exponent`
         self.ints = set(ints)
         self.intfuncs = dict(intfuncs or {})
         self.sqrt = sqrt
@@ -43,7 +44,7 @@ class PTr(Tr):
 
     def clone(self, env=None, ints=None):
         return PTr(self.env if env is None else env, self.ints if ints is None else ints, self.funcs,
-                   self.intfuncs, self.sqrt, self.mixed, self.unary, self.bools)
+                   self.intfuncs, self.sqrt, self.mixed, self.unary, self.bools, self.rpow)
 
     def itr(self):
         return Tr({k: k for k in self.ints}, 'int')
@@ -78,6 +79,8 @@ class PTr(Tr):
         if isinstance(e, ast.Name) and e.id in self.ints and e.id not in self.env:
             return f'(Num.ofInt {e.id})'
         if isinstance(e, ast.BinOp) and isinstance(e.op, ast.Pow) and not isinstance(e.right, ast.Constant):
+            if self.rpow and not self.is_int(e.right):
+                return f'({self.rpow} {self.expr(e.left)} {self.expr(e.right)})'
             return f'(Num.npow {self.expr(e.left)} (Int.toNat {self.int_expr(e.right)}))'
         if isinstance(e, ast.Call):
             f = ast.unparse(e.func)
@@ -420,6 +423,13 @@ def generate(repo):
            f'def abc [DecidableEq K] (n alpha beta : K) : K × K × K :=\n'
            f'  if n = Num.ofInt 0 ∧ (alpha + beta = Num.ofInt 0 ∨ alpha + beta = Num.ofInt (-1)) then {M}.abc0 alpha beta\n'
            f'  else {M}.abcK n alpha beta')
+
+    # ---- weight(alpha, beta, x): the weight the library reports for the Jacobi family (real powers as a parameter `rpow`)
+    def weight():
+        return translate_fn(get_def(jac, 'weight'), 'weight', [], ['alpha', 'beta', 'x'], tr_kwargs={'rpow': 'rpow'},
+                            extra_binders='(rpow : K → K → K) ')
+    g.item('weight', 'prysm/polynomials/jacobi.py:weight', lambda: get_def(jac, 'weight'), weight,
+           'def weight (rpow : K → K → K) (alpha beta x : K) : K := rpow (Num.ofInt 1 - x) alpha * rpow (Num.ofInt 1 + x) beta')
 
     # ---- jacobi(n, alpha, beta, x)
     def jacobi():
